@@ -10,9 +10,10 @@ import SynthVerif.Props.C13
   `short_times_equal`: every `t` with `fl(1/t) ≥ fs/2` (in particular 0 and every time below two samples) selects
   the same, fastest, coefficients.
 * `ideal_residual`: for the unrounded recurrence the distance to a held input shrinks by the factor
-  `1 − α = 1/(1+ω)` per sample (`ω = 2π·f0/fs`): the discrete RC lag of the property.  The numeric coverage figures
-  (99.5 % at t, 40–55 % at t/10, 8 samples for the fastest setting) are checked by the oracle on the implementation;
-  they are not proved here (`partial`, see DESIGN.md).
+  `1 − α = 1/(1+ω)` per sample (`ω = 2π·f0/fs`): the discrete RC lag of the property.
+* Part 2, `C14Coverage.lean`: the numeric coverage figures for the *rounded* filter with the coefficients
+  `set_time` actually computes — `glide_time_coverage` (≥ 99.75 % at t, 42.5–53 % at t/10, for every (fs, t) with at
+  least 100 samples per t ≤ 10 s) and `fastest_settles` (8 samples for the fastest setting).
 -/
 namespace C14
 open F32 Glide
